@@ -436,8 +436,8 @@ def searchC13 : List Hit × Nat × Nat := Id.run do
   let mut hits : List Hit := []
   let mut n := 0
   let mut bad := 0
-  for (ncols, k, cols, flat) in ([(1, 0, [0], false), (2, 0, [0, 1], false), (2, 0, [1, 0], false), (2, 1, [0, 1], false),
-      (2, 1, [1], false), (2, 1, [1], true), (2, 1, [1, 0], true)] : List (Nat × Nat × List Nat × Bool)) do
+  -- storage precondition (what the planner's `rangeGuard` admits): key = column 0 = first scanned
+  for (ncols, k, cols, flat) in ([(1, 0, [0], false), (2, 0, [0, 1], false), (2, 0, [0, 1], true), (2, 0, [0], false)] : List (Nat × Nat × List Nat × Bool)) do
     for lay in layoutsUpTo ncols k flat do
       let full := concatScan lay
       for lo in allBnds do
@@ -538,7 +538,10 @@ def answer (line : String) : String :=
       let primary := match field "primary" tb with
         | some xs => natsOf xs
         | none => []
-      let t : TableMeta := { primary := primary, sortedByPk := true }
+      let intCols := match field "int" tb with
+        | some xs => natsOf xs
+        | none => []
+      let t : TableMeta := { primary := primary, sortedByPk := true, intCols := intCols }
       let all := (replayOps primary ops ([], 0)).1.map (attachBlocks ((field "blocks" rest).getD []))
       let lay := (natsOf snap).filterMap fun i => all.find? (·.id == i)
       let scans := (field "scans" rest).getD []
